@@ -743,6 +743,8 @@ func runT4(p *an.Prog, r *an.Result) {
 				r.OK(an.FuncName(fn), "sets the trim flag", st.Pos(), "")
 			case an.FuncName(fn) == "(*render.trimWriter).Write" && isC && !v:
 				r.OK(an.FuncName(fn), "clears the trim flag", st.Pos(), "")
+			case isC && !v && onlyCalledFromWrite(p, fn):
+				r.OK(an.FuncName(fn), "clears the trim flag for Write", st.Pos(), "a method of the trim writer that only Write calls")
 			default:
 				r.Bad(an.FuncName(fn), "trim flag written", st.Pos(), "the flag may be set only by TrimRight and cleared only by Write")
 			}
@@ -1745,6 +1747,9 @@ func runT9(p *an.Prog, r *an.Result) {
 					good = false
 				}
 			case *ssa.Call:
+				if h := x.Call.StaticCallee(); h != nil && p.InModule(h) && onlyCalledFromWrite(p, h) && trimsOnlyUnderFlag(p, h, x, w.Params[1]) {
+					continue
+				}
 				if an.CallName(&x.Call) != "bytes.TrimLeftFunc" || x.Call.Args[0] != ssa.Value(w.Params[1]) {
 					good = false
 				} else {
@@ -2639,4 +2644,64 @@ func runT12(p *an.Prog, r *an.Result) {
 		})
 	}
 	r.Floor("trim writer field accesses", 5)
+}
+
+// onlyCalledFromWrite: fn is a method of the trim writer and every call of it is in trimWriter.Write.
+func onlyCalledFromWrite(p *an.Prog, fn *ssa.Function) bool {
+	if fn.Signature.Recv() == nil || !strings.Contains(an.TypeName(fn.Signature.Recv().Type()), "trimWriter") {
+		return false
+	}
+	sites := callSitesOf(p, fn)
+	if len(sites) == 0 {
+		return false
+	}
+	for _, s := range sites {
+		if an.FuncName(s.Parent()) != "(*render.trimWriter).Write" {
+			return false
+		}
+	}
+	return true
+}
+
+// trimsOnlyUnderFlag: the helper h, called as `call` with Write's data argument, hands back that argument -
+// unchanged, or left-trimmed of whitespace on the paths where the trim flag was found set.
+func trimsOnlyUnderFlag(p *an.Prog, h *ssa.Function, call *ssa.Call, data ssa.Value) bool {
+	idx := -1
+	for i, a := range call.Call.Args {
+		if a == data {
+			idx = i
+		}
+	}
+	if idx < 0 || idx >= len(h.Params) || h.Signature.Results().Len() != 1 {
+		return false
+	}
+	par := h.Params[idx]
+	ok, n := true, 0
+	an.EachInstr(h, func(in ssa.Instruction) {
+		ret, isRet := in.(*ssa.Return)
+		if !isRet {
+			return
+		}
+		for _, o := range an.Origins(ret.Results[0], an.StepValue) {
+			n++
+			if o == ssa.Value(par) {
+				continue
+			}
+			c, isCall := o.(*ssa.Call)
+			if !isCall || an.CallName(&c.Call) != "bytes.TrimLeftFunc" || c.Call.Args[0] != ssa.Value(par) {
+				ok = false
+				continue
+			}
+			under := false
+			for _, g := range an.GuardsAtInstr(c) {
+				if g.True && strings.HasSuffix(describe(p, g.Cond), ".trim") {
+					under = true
+				}
+			}
+			if !under {
+				ok = false
+			}
+		}
+	})
+	return ok && n > 0
 }
